@@ -213,15 +213,22 @@ func c18Sorted(w *World, r *Report) {
 	r.Check(bad == "", "C18/SORTED", "single-decoder", w.Pos(li.Pos()), "only loadIndex decodes index files", bad+" decodes an index file without going through loadIndex (no filtering, no sorting)")
 	// SortEntries: sort.Sort(sort.Reverse(versions))
 	okRev := false
+	var revSorts []ssa.Instruction
 	for _, c := range callInstrs(se) {
 		f, _ := calleeOf(c.Common())
 		if f != nil && fnPkgPath(f) == "sort" && (f.Name() == "Sort" || f.Name() == "Stable") {
 			if rc, ok := unwrapIface(c.Common().Args[0]).(*ssa.Call); ok {
 				if rf, _ := calleeOf(rc.Common()); rf != nil && fnPkgPath(rf) == "sort" && rf.Name() == "Reverse" {
 					okRev = true
+					revSorts = append(revSorts, c)
 				}
 			}
 		}
+	}
+	if okRev {
+		// every list: no iteration of the loop over the entries gets round the sort (a "looks sorted
+		// already" shortcut decides by something else than the version order)
+		r.Check(loopBodyAlwaysCalls(FullGraph(se), revSorts), "C18/SORTED", "SortEntries/every-list", w.InstrPos(revSorts[0]), "every iteration over the entries sorts its list", "some iteration over the entries can skip the sort: a list that is left as it came from the file is not newest-first, and the lookups that take element 0 or stop at the first match return an older version")
 	}
 	r.Check(okRev, "C18/SORTED", "SortEntries/descending", w.Pos(se.Pos()), "each version list is sorted with sort.Reverse (newest first)", "version lists are not sorted in descending order")
 	// ChartVersions.Less: semver(c[a]).LessThan(semver(c[b]))
